@@ -13,6 +13,8 @@ RULE = ('S3: exhaustive layout construction (channels -1..257 x mapping families
         'decoder/encoder init and create, validate_layout, validate_encoder_layout and get_left/right/mono_channel; '
         'multistream packet validation on concatenations of 1..24 self-delimited packets of equal or unequal duration, mutated; '
         'opus_multistream_decode_native with a scripted per-stream decoder and a logging copy callback (call trace); '
+        'opus_multistream_encode with scripted per-stream encoders (real repacketizer; curr_max values, return value and bytes); '
+        'opus_projection_decoder_create/init on exported and arbitrary matrices; in_float/out_float in the exact binary32 domain; '
         'mapping_matrix in_short/out_short on all ten built-in matrices in the exact float domain, out_short with accumulators '
         'placed on the int16 saturation boundary (sum = 32766..32769, -32770..-32767), and every impulse round trip. '
         'S4: RFC 7845/8486 layouts for every family x channels 1..255; real surround / multistream / projection encoders '
@@ -22,13 +24,14 @@ RULE = ('S3: exhaustive layout construction (channels -1..257 x mapping families
         'unit impulses through mixing and demixing matrices of all orders. '
         'A case is distinct by its (op, outcome kind) class (S3) or its (encoder kind, family, channels, rate, frame size, API) tuple (S4)')
 NOT_COVERED = [
-    'the ENCODER side of the packet structure (output = serialize(true) p1 ++ ... ++ serialize(false) pn) is not a theorem: it '
-    'needs the repacketizer model (C07) and the encoder skeleton (C02); it is checked on the implementation by the S4 search only '
-    '(the decoder side - what opus_multistream_packet_validate accepts - is theorem ms_packet_structure)',
+    'the encoder-side packet structure (ms_encode_packet_structure) takes each opus_encode_native result as an oracle within '
+    'the C02/C07 contract; max_data_bytes clamping under OPUS_AUTO in CBR (rate allocation) is not modelled (the theorem holds '
+    'for every effective max_data_bytes); the multistream OPUS_SET_BITRATE range clamp belongs to C11',
     'the per-stream encoders/decoders are opaque: routing is proved for arbitrary per-stream PCM, the equality with stand-alone '
     'decoders (same state evolution per stream) is established by the S4 search, not proved',
-    'float paths of the mapping matrices (in_float/out_float, and in_short outside the exact binary32 domain) are not modelled; '
-    'the identity D*M ~ I is proved for the integer tables, the float round trip is only searched (impulse oracle)',
+    'float paths of the mapping matrices (in_float/out_float/in_short) are modelled as exact dyadic functions and tied only '
+    'inside the exact binary32 domain (no rounding); outside it the float round trip is only searched (impulse oracle); '
+    'the int24 paths are not modelled',
     'mapping family 3 of RFC 8486 allows orders 0..14; the code has matrices for orders 1..5 only (other counts are rejected)',
     'opus_int32 overflow: C int as unbounded integers (all quantities here are below 2^31 by the argument checks)',
 ]
@@ -39,10 +42,10 @@ REQUIRED_THEOREMS = ['OpusProps.C10.validate_spec', 'OpusProps.C10.create_reject
                      'OpusProps.C10.routing_pcm', 'OpusProps.C10.surround_layout_valid', 'OpusProps.C10.family1_is_rfc7845',
                      'OpusProps.C10.ambisonics_counts', 'OpusProps.C10.projection_layout_valid',
                      'OpusProps.C10.demix_inverts_mix', 'OpusProps.C10.ms_packet_structure',
-                     'OpusProps.C10.matrix_short_saturates']
-UNPROVED = ['ms_packet_structure for the ENCODER side: opus_multistream_encode_native output = serialize(true) p1 ++ ... ++ '
-            'serialize(false) pn with equal durations (needs the repacketizer model of C07 and the encoder skeleton of C02); '
-            'the proved ms_packet_structure is the decoder-side statement (what opus_multistream_packet_validate accepts)',
+                     'OpusProps.C10.matrix_short_saturates', 'OpusProps.C10.ms_encode_packet_structure',
+                     'OpusProps.C10.import_export_demix', 'OpusProps.C10.isqrt32_correct']
+UNPROVED = ['that the real per-stream encoder meets EncContract (valid packet of the common frame size, <= curr_max bytes, '
+            'zero padding): ms_encode_packet_structure assumes it (C02/C05/C07 territory); monitored by the S4 search on real encoders',
             'equality of the streams inside a multistream decoder with stand-alone decoders (per-stream codecs are opaque)']
 
 
@@ -69,6 +72,8 @@ def ties(ctx):
     out.append(common.run_tie('layout-msval', [h, 'msval', str(ctx.seed + 100), _n(ctx, 20000, 400000)]))
     out.append(common.run_tie('layout-route', [hs, 'route', str(ctx.seed + 200), _n(ctx, 6000, 120000)]))
     out.append(common.run_tie('layout-matrix', [h, 'matrix', str(ctx.seed + 300), _n(ctx, 1500, 30000)]))
+    out.append(common.run_tie('layout-msenc', [hs, 'msenc', str(ctx.seed + 600), _n(ctx, 6000, 150000)]))
+    out.append(common.run_tie('layout-projdec', [h, 'projdec', str(ctx.seed + 700), _n(ctx, 4000, 100000)]))
     return out
 
 
@@ -89,6 +94,11 @@ _CLAUSE = {
     'mixin': 'int16 input of the mapping-matrix multiply = exact linear combination of the matrix row (exact binary32 domain); '
              'the mixing step of projection encode (theorem demix_inverts_mix is about these cells)',
     'ambi': 'ambisonics channel counts (theorem ambisonics_counts)',
+    'msenc': 'the multistream encoder emits self-delimited packets ++ one standard packet of equal duration '
+             '(theorem ms_encode_packet_structure)',
+    'projdec': 'projection decoder creation: argument checks and the imported demixing matrix (theorem import_export_demix)',
+    'mixinf': 'float input path of the mapping-matrix multiply = exact linear combination (exact binary32 domain)',
+    'mixoutf': 'float output path of the mapping-matrix multiply = exact multiply-accumulate (exact binary32 domain)',
 }
 
 
@@ -254,6 +264,24 @@ def search(ctx):
     n = 300 if ctx.quick else 6000
     seed = ctx.seed + 500
     eat(_run([h, 'straddle', str(seed), str(n)]), 'layout-straddle', 'harness: c10_layout straddle %d %d' % (seed, n))
+    # (e) projection decoder creation with a zero cell count: the one call on which the code declares a zero-length array
+    #     before validating its arguments (run under ASan/UBSan; a sanitizer report is a witness)
+    hsan = _harness(ctx, 'c10_layout', 'san')
+    p = _run([hsan, 'projvla'])
+    cases += 2
+    answered = [l for l in p.stdout.split('\n') if l.startswith('O ')]
+    if 'runtime error' in p.stderr or 'AddressSanitizer' in p.stderr or any(l.startswith('O SANITIZER') for l in answered) \
+            or p.returncode != 0 or len(answered) != 2:
+        rep = [l for l in p.stderr.split('\n') if 'runtime error' in l or 'ERROR' in l][:2]
+        wit.append({'suite': 'layout-projdec-vla', 'input': 'projdec create 1 0 1 0 x 0 (opus_projection_decoder_create(48000, channels=0, '
+                    'streams=1, coupled=0, matrix, size=0); harness mode projvla)', 'expected': 'BAD_ARG without undefined behaviour',
+                    'observed': ' | '.join(rep) or 'exit %d: %s' % (p.returncode, p.stderr[-300:]),
+                    'why': 'opus_projection_decoder_init declares opus_int16 buf[nb_input_streams*channels] before validating '
+                           'channels/streams/coupled: zero-length variable length array (src/opus_projection_decoder.c:167)'})
+    elif any(l != 'O BAD_ARG' and l != 'O ALLOC_FAIL' for l in answered):
+        wit.append({'suite': 'layout-projdec-vla', 'input': 'harness mode projvla', 'expected': 'BAD_ARG', 'observed': ' '.join(answered),
+                    'why': 'a projection decoder is created for zero channels / zero coded channels'})
+    samples.append('projvla: %s' % ' '.join(answered))
     return {'cases': cases, 'distinct': len(distinct),
             'oracle': 'RFC 7845/8486 layout per family and channel count (accepted by both validators, rejected elsewhere); every packet of '
                       'the surround/multistream/projection encoders splits into nb_streams self-delimited packets (last standard) of the '
